@@ -4,6 +4,7 @@ import (
 	"fmt"
 	"go/constant"
 	"go/token"
+	"go/types"
 	"sort"
 	"strings"
 
@@ -39,43 +40,75 @@ func runC18(c *Ctx) {
 	if !c.R.Anchor(lp != nil, langPkg) {
 		return
 	}
-	tabs := map[string]*eng.SwitchTable{}
+	// the four table functions, read by conditional constant propagation (engine E7b): the receiver is bound to
+	// each declared Language constant in turn
+	tfn := map[string]*ssa.Function{}
 	for _, n := range []string{"commentStyle", "SingleLineCommentStart", "MultilineCommentStart", "MultilineCommentEnd"} {
-		spec := "(Language)." + n
-		t, err := eng.ReadSwitchTable(lp, n, p.FuncDecl(p.Func(langPkg, spec)))
-		if err != nil {
-			c.R.Undecided("R18.1", "language table "+n, langPkg, "cannot read the table: "+err.Error())
+		f := p.Func(langPkg, "(Language)."+n)
+		if !c.R.Anchor(f != nil && len(f.Params) == 1, "language.(Language)."+n) {
 			return
 		}
-		tabs[n] = t
+		tfn[n] = f
 	}
-	langs := eng.ConstsOfType(lp, "Language")
-	styles := eng.ConstsOfType(lp, "style")
+	langT, _ := tfn["commentStyle"].Params[0].Type().(*types.Named)
+	styleT, _ := tfn["commentStyle"].Signature.Results().At(0).Type().(*types.Named)
+	if !c.R.Anchor(langT != nil && styleT != nil, "language.Language / comment style types") {
+		return
+	}
+	langs := eng.ConstsOfType(lp, langT.Obj().Name())
+	styles := eng.ConstsOfType(lp, styleT.Obj().Name())
 	c.R.Count("R18:languages", len(langs))
 	c.R.Count("R18:styles", len(styles))
 	c.R.RequireMin("R18.1", "language constants", len(langs), 20)
 	c.R.RequireMin("R18.1", "style constants", len(styles), 5)
-
+	ce := eng.NewConstEvaluator()
+	evalStr := func(n string, l *types.Const) (string, bool) {
+		res, err := ce.Eval(tfn[n], []constant.Value{l.Val()})
+		if err != nil || len(res) != 1 {
+			msg := "unexpected result shape"
+			if err != nil {
+				msg = err.Error()
+			}
+			c.R.Undecided("R18.1", "language table "+n, langPkg, "cannot read the table for "+l.Name()+": "+msg)
+			return "", false
+		}
+		if res[0].Kind() == constant.String {
+			return constant.StringVal(res[0]), true
+		}
+		return res[0].ExactString(), true
+	}
+	styleName := map[string]string{}
+	for _, s := range styles {
+		styleName[s.Val().ExactString()] = s.Name()
+	}
+	defStyle := styleName["0"]
 	// R18.1 reachability of styles
 	image := map[string][]string{}
+	styleOf := map[string]string{}
 	for _, l := range langs {
-		s := tabs["commentStyle"].Lookup(l.Name(), "")
+		v, ok := evalStr("commentStyle", l)
+		if !ok {
+			return
+		}
+		s := styleName[v]
+		styleOf[l.Name()] = s
 		image[s] = append(image[s], l.Name())
 	}
-	usedInTables := map[string]bool{}
+	// styles the delimiter functions distinguish (constants of the style type they compare against)
+	var delimFns []*ssa.Function
 	for _, n := range []string{"SingleLineCommentStart", "MultilineCommentStart", "MultilineCommentEnd"} {
-		for _, r := range tabs[n].Rows {
-			for _, k := range r.Keys {
-				usedInTables[k] = true
-			}
-		}
+		delimFns = append(delimFns, pkgClosure(tfn[n], langPkg)...)
+	}
+	usedInTables := map[string]bool{}
+	for v := range eng.ConstOperandsOfType(delimFns, styleT) {
+		usedInTables[styleName[v]] = true
 	}
 	var names []string
 	for k := range usedInTables {
 		names = append(names, k)
 	}
 	sort.Strings(names)
-	defStyle := tabs["commentStyle"].Default
+	c.R.RequireMin("R18.1", "styles distinguished by the delimiter functions", len(names), 4)
 	for _, s := range names {
 		if s == defStyle {
 			continue
@@ -86,12 +119,33 @@ func runC18(c *Ctx) {
 			c.R.Fail("R18.1", "style "+s+" is never returned by commentStyle", langPkg, "the style has delimiter rows but no language maps to it: comments of the language it was written for are never found")
 		}
 	}
-	for s, ls := range image {
+	sl, ms, me := map[string]string{}, map[string]string{}, map[string]string{}
+	for _, l := range langs {
+		var ok1, ok2, ok3 bool
+		sl[l.Name()], ok1 = evalStr("SingleLineCommentStart", l)
+		ms[l.Name()], ok2 = evalStr("MultilineCommentStart", l)
+		me[l.Name()], ok3 = evalStr("MultilineCommentEnd", l)
+		if !ok1 || !ok2 || !ok3 {
+			return
+		}
+	}
+	var imgStyles []string
+	for s := range image {
+		imgStyles = append(imgStyles, s)
+	}
+	sort.Strings(imgStyles)
+	for _, s := range imgStyles {
 		if s == defStyle {
 			continue
 		}
-		if !usedInTables[s] {
-			c.R.Fail("R18.1", "style "+s+" has no delimiter row", langPkg, "languages "+strings.Join(ls, ",")+" map to a style for which no comment delimiter is defined")
+		any := false
+		for _, l := range image[s] {
+			if sl[l] != "" || ms[l] != "" {
+				any = true
+			}
+		}
+		if !any {
+			c.R.Fail("R18.1", "style "+s+" has no delimiter row", langPkg, "languages "+strings.Join(image[s], ",")+" map to a style for which no comment delimiter is defined")
 		}
 	}
 	// languages with unknown style: recorded (Unknown itself is expected)
@@ -108,16 +162,13 @@ func runC18(c *Ctx) {
 	// R18.2 pairing for every language
 	bad := 0
 	for _, l := range langs {
-		st := tabs["commentStyle"].Lookup(l.Name(), "")
-		ms := tabs["MultilineCommentStart"].Lookup(st, l.Name())
-		me := tabs["MultilineCommentEnd"].Lookup(st, l.Name())
-		if (ms == "") != (me == "") {
+		if (ms[l.Name()] == "") != (me[l.Name()] == "") {
 			bad++
-			c.R.Fail("R18.2", "language "+l.Name()+": multi-line start and end delimiters are not paired", langPkg, fmt.Sprintf("style %s: start %q, end %q", st, ms, me))
+			c.R.Fail("R18.2", "language "+l.Name()+": multi-line start and end delimiters are not paired", langPkg, fmt.Sprintf("style %s: start %q, end %q", styleOf[l.Name()], ms[l.Name()], me[l.Name()]))
 		}
 	}
 	if bad == 0 {
-		c.R.OK("R18.2", "multi-line start delimiter exists iff end delimiter exists, for every language", langPkg, fmt.Sprintf("%d languages x 2 tables evaluated from the case clauses", len(langs)))
+		c.R.OK("R18.2", "multi-line start delimiter exists iff end delimiter exists, for every language", langPkg, fmt.Sprintf("%d languages x 2 table functions evaluated by constant propagation", len(langs)))
 	}
 
 	// R18.3 fallback agreement
